@@ -207,6 +207,17 @@ func init() {
 	reg("Byte", func(in *Interp, fr *frame, a []Value) Value { return in.inputBV(strArg(a[0]), 8) })
 	reg("Int64", func(in *Interp, fr *frame, a []Value) Value { return in.inputInt(strArg(a[0])) })
 	reg("Int", func(in *Interp, fr *frame, a []Value) Value { return in.inputInt(strArg(a[0])) })
+	reg("Timestamp", func(in *Interp, fr *frame, a []Value) Value {
+		// a symbolic unix-seconds stamp in the modelled range [0, 2^36)
+		name := strArg(a[0])
+		k := in.names["in:"+name]
+		in.names["in:"+name] = k + 1
+		v := in.tb.Var(fmt.Sprintf("in_%s_%d_I", name, k), smt.IntSort)
+		in.input(v)
+		in.assume(in.tb.IntCmp(">=", v, in.tb.IntLit(0)))
+		in.assume(in.tb.IntCmp("<", v, in.tb.IntLit(1<<36)))
+		return in.mkInt(v, 37)
+	})
 	reg("Bool", func(in *Interp, fr *frame, a []Value) Value {
 		name := strArg(a[0])
 		k := in.names["in:"+name]
@@ -427,6 +438,9 @@ func init() {
 			}
 		}
 		return Bool{C: true}
+	})
+	reg("CalledFrom", func(in *Interp, fr *frame, a []Value) Value {
+		return mkBV(64, uint64(in.m.edges[strArg(a[1])+">"+strArg(a[0])]))
 	})
 	reg("Counter", func(in *Interp, fr *frame, a []Value) Value {
 		if c, ok := in.m.counters[strArg(a[0])]; ok {
